@@ -508,6 +508,35 @@ var Scenarios = []Directed{
 		s.End()
 		s.Blocks(6, allHdr)
 	}},
+	{"fractional_min_stake", []string{"C01", "C07", "C10"}, famWith(4, map[string]string{"minValidatorStake": "1500000000000000000"}), func(s *Script) {
+		// the minimum validator stake is not a whole number of power units (1.5): validators of power 1 and 2 sit right at
+		// and above the rounded minimum.  Proposals by them, delegations, a parameter change to another fractional value,
+		// and restarts in between.
+		s.Blocks(3, allHdr)
+		s.Restart()
+		s.Begin(allHdr) // 4
+		s.Propose(1, 6, 2, 11, `{"minValidatorStake":"2500000000000000000"}`)
+		s.Stake(5, 4, "1e18")
+		s.Stake(6, 6, "2e18")
+		s.End()
+		s.Blocks(1, allHdr)
+		s.Restart()
+		s.Begin(allHdr) // 6
+		for _, id := range s.Proposals() {
+			for v := 1; v <= 4; v++ {
+				s.Vote(v, id, 0)
+			}
+		}
+		s.Stake(5, 3, "1e18")
+		s.End()
+		s.Blocks(5, allHdr) // applied at 11
+		s.Restart()
+		s.Begin(allHdr) // 12
+		s.Propose(3, 14, 2, 19, `{"gasPrice":"11"}`)
+		s.Stake(5, 3, "1e18")
+		s.End()
+		s.Blocks(3, allHdr)
+	}},
 	{"restart_after_first_block", []string{"C10", "C07"}, fam(0), func(s *Script) {
 		// the very first block already changes the staking ledger (a new validator, a delegation), and the process is
 		// restarted right after it: version 1 is the only committed version, there is no version before it
